@@ -286,6 +286,9 @@ impl Kademlia {
                 for action in actions {
                     match self.service.open_substream(peer) {
                         Ok(substream_id) => {
+                            // Remember whose substream this is: `on_substream_open_failure`
+                            // finds the pending action through this map.
+                            self.pending_substreams.insert(substream_id, peer);
                             context.add_pending_action(substream_id, action);
                         }
                         Err(error) => {
